@@ -86,6 +86,64 @@ theorem c12_ownership_cleared (b : Bool) (pfx rel : List Seg) (n : FsNode) :
     (mkHeader b pfx rel n).uid = 0 ∧ (mkHeader b pfx rel n).gid = 0 := by
   simp [mkHeader]
 
+/-! ### Whole trees -/
+
+/-- A tree as `tarDirectory` walks it: relative path and node, in walk order. -/
+abbrev Tree := List (List Seg × FsNode)
+
+/-- The archive `tarDirectory` writes for a tree. -/
+def archiveOf (removeTimes : Bool) (pfx : List Seg) (t : Tree) : List TarHeader :=
+  t.map fun e => mkHeader removeTimes pfx e.1 e.2
+
+/-- What `extractTarDirectory` creates from an archive, entry by entry (`none` = rejected). -/
+def extractAll (preserve : Bool) (umask : Nat) (pfx : List Seg) (hs : List TarHeader) :
+    List (Option (List Seg × NodeKind × Nat)) :=
+  hs.map (extractEntry preserve umask pfx)
+
+/-- The mode an entry comes back with. -/
+def restoredPerm (preserve : Bool) (umask : Nat) (n : FsNode) : Nat :=
+  match n.kind with
+  | .symlink _ => 0
+  | _ => if preserve then n.perm else n.perm &&& (0o777 - (umask &&& 0o777))
+
+/-- **Whole-tree round trip**: for every tree of regular files, directories and symlinks at
+    clean relative paths — any size, any nesting, any walk order — extracting the archive the
+    store wrote for it recreates every entry at the same relative path with the same content
+    identity / link target and the expected mode; no entry is rejected and none is invented. -/
+theorem c12_tree_roundtrip (removeTimes preserve : Bool) (umask : Nat) (pfx : List Seg) (t : Tree)
+    (hp : NoDots pfx) (ht : ∀ e ∈ t, NoDots e.1) :
+    extractAll preserve umask pfx (archiveOf removeTimes pfx t) =
+      t.map fun e => some (e.1, e.2.kind, restoredPerm preserve umask e.2) := by
+  unfold extractAll archiveOf
+  rw [List.map_map]
+  apply List.map_congr_left
+  intro e he
+  simp only [Function.comp]
+  rw [c12_entry_roundtrip removeTimes preserve umask pfx e.1 hp (ht e he) e.2]
+  rfl
+
+/-- **Reproducible descriptors for whole trees**: with `TarReproducible`, two trees with the
+    same paths, kinds (contents, link targets) and modes give the same archive, whatever
+    their timestamps and owners — hence the same digest and descriptor. -/
+theorem c12_tree_reproducible (pfx : List Seg) (t u : Tree)
+    (h : t.map (fun e => (e.1, e.2.kind, e.2.perm)) = u.map (fun e => (e.1, e.2.kind, e.2.perm))) :
+    archiveOf true pfx t = archiveOf true pfx u := by
+  unfold archiveOf
+  induction t generalizing u with
+  | nil =>
+    cases u with
+    | nil => rfl
+    | cons _ _ => simp at h
+  | cons e es ih =>
+    cases u with
+    | nil => simp at h
+    | cons f fs =>
+      simp only [List.map_cons, List.cons.injEq, Prod.mk.injEq] at h ⊢
+      obtain ⟨⟨h1, h2, h3⟩, hrest⟩ := h
+      refine ⟨?_, ih fs hrest⟩
+      rw [h1]
+      exact c12_reproducible pfx f.1 e.2 f.2 h2 h3
+
 /-- Non-vacuity. -/
 example :
     let n : FsNode := ⟨.file 7, 0o640, 111, 222, 1000, 1000⟩
